@@ -266,6 +266,7 @@ public:
   ///       to ensure all callbacks have completed before destroying targets.
   DrainStats drain(std::chrono::milliseconds timeoutMs = std::chrono::milliseconds(30000))
   {
+    LifecycleGuard lifecycle(*this);
     _accepting.store(false, std::memory_order_release);
     _state.store(TimingWheelState::DRAINING, std::memory_order_release);
     stopTickThread();
@@ -362,6 +363,9 @@ public:
   void stop()
   {
     _accepting.store(false, std::memory_order_release);
+    // Wait for a drain() another thread is in: it fires callbacks on that thread,
+    // and stop() must not return while they are still running or yet to start.
+    LifecycleGuard lifecycle(*this);
     stopTickThread();
     clearAllEntries();
     _state.store(TimingWheelState::STOPPED, std::memory_order_release);
@@ -693,6 +697,7 @@ private:
     _running.store(true, std::memory_order_release);
     _tickThread = std::thread([this]()
     {
+      _tickThreadId.store(std::this_thread::get_id(), std::memory_order_release);
       while (_running.load(std::memory_order_acquire))
       {
         std::unique_lock lock(_tickCvMutex);
@@ -707,6 +712,38 @@ private:
       }
     });
   }
+
+  /// Serializes drain() and stop() across threads: stop() used to return while another
+  /// thread's drain() was still firing callbacks (and both could join the tick thread at
+  /// once). Re-entrant for the thread that holds it — a callback fired by drain() may
+  /// call stop()/drain() itself — and never taken on the tick thread, which a holder
+  /// may be joining.
+  struct LifecycleGuard
+  {
+    TimingWheel& wheel;
+    bool owns{false};
+    explicit LifecycleGuard(TimingWheel& w) : wheel(w)
+    {
+      auto self = std::this_thread::get_id();
+      if (wheel._lifecycleOwner.load(std::memory_order_acquire) != self &&
+          wheel._tickThreadId.load(std::memory_order_acquire) != self)
+      {
+        wheel._lifecycleMutex.lock();
+        wheel._lifecycleOwner.store(self, std::memory_order_release);
+        owns = true;
+      }
+    }
+    ~LifecycleGuard()
+    {
+      if (owns)
+      {
+        wheel._lifecycleOwner.store(std::thread::id{}, std::memory_order_release);
+        wheel._lifecycleMutex.unlock();
+      }
+    }
+    LifecycleGuard(const LifecycleGuard&) = delete;
+    LifecycleGuard& operator=(const LifecycleGuard&) = delete;
+  };
 
   void stopTickThread()
   {
@@ -729,6 +766,9 @@ private:
   std::vector<WheelLevel> _wheels;
   std::unordered_map<TimerId, TimerEntry*> _entryMap;
   mutable std::mutex _wheelMutex; // Lock ordering: _wheelMutex BEFORE _poolMutex
+  std::mutex _lifecycleMutex;     // held by drain()/stop() for their whole duration (never with _wheelMutex wanted by others only briefly)
+  std::atomic<std::thread::id> _lifecycleOwner{};
+  std::atomic<std::thread::id> _tickThreadId{};
   TimePoint _lastAdvanceTime{};
 
   // Entry pool (free-list)
